@@ -32,7 +32,7 @@ def edge_dist(poly, x, y):
 def run(run):
     rng = run.rng
     run.do_ties()
-    quick = run.tier == "quick"
+    quick = run.quick
     i0, _ = core.both(run, ["consts", "face_vertices"], "runtime-constants")
     axes = []
     for tok in i0[0].split(" | ")[2].split():
